@@ -156,7 +156,7 @@ func regionsOf(e envSpec, cl *mockcluster.Cluster, canonical bool) []regionSpec 
 	var out []regionSpec
 	k := e.peers()
 	learners := 0
-	if e.Rules >= 2 {
+	if e.Rules == 2 || e.Rules == 3 {
 		learners = 1
 	}
 	var perms [][]int
@@ -323,7 +323,7 @@ func mkEnvs(ns []int, replicas []int, rules []int, layouts []int, maxSpecial int
 				for _, l := range layouts {
 					for _, kv := range kindVariants(n, maxSpecial, kinds) {
 						e := envSpec{N: n, Kinds: kv, Layout: l, Replicas: k, Rules: ru}
-						if e.peers() > n || (ru == 0 && hasKind(kv, kTiFlash)) {
+						if e.peers() > n || (ru == 0 && (hasKind(kv, kTiFlash) || hasKind(kv, kTiFlashOff))) {
 							continue // TiFlash needs placement rules
 						}
 						out = append(out, e)
